@@ -100,6 +100,24 @@ CHECKS = {
              "Relations!MonoSpec is evaluated under all ordered pairs of a per-parameter lattice (incl. exact distances and "
              "decimal near-threshold times), strict vs non-strict, and 20 documented nested pairs; Trace_Rel judges.",
         ref="4/C07, App. C"),
+    "C08": dict(
+        technique="TLA+ shift/permute/relabel invariants model-checked on the definitions; recorded before/after outcome "
+                  "pairs judged by a TLA+ trace spec",
+        text="MC_C08 checks on every lattice input that shifting both sides leaves event/note feasibility graphs and all "
+             "chord.evaluate scores unchanged and that permuting notes preserves the maximum matching; MC_C16 checks label "
+             "bijections on the clustering indices. On the code, seeded dyadic-lattice inputs of beat (7 functions), onset, "
+             "transcription(+velocity), multipitch, alignment, pattern, chord are shifted by dyadic offsets (bit-identical "
+             "results required); notes, in-frame frequencies, the two estimated tempi and the reference pattern list are "
+             "permuted; segment/hierarchy labels renamed by order-reversing, case-changing bijections; Trace_Rel judges.",
+        ref="4/C08, App. C"),
+    "C02": dict(
+        technique="TLA+ Copy invariants (SelfMatch, PerfectEstimate, PerfectWhenSame, SelfPerfect) model-checked on the "
+                  "definitions; recorded metric(x, copy x) outcomes judged by a TLA+ trace spec against Relations!PerfectSpec",
+        text="TLC checks on every enumerated input that a copy of the reference is matched completely, scores 1 on all chord "
+             "rules/segmentation scores, has pairwise/Rand/ARI 1 and key score 1. On the code, seeded non-degenerate "
+             "annotations of all 13 tasks are scored against a deep copy and against the very same objects through every "
+             "evaluate() and metric function (46 function entries); Trace_Rel compares each position with the optimum table.",
+        ref="4/C02"),
 }
 
 PENDING = "check not built yet (build in progress; see DESIGN.md section 10)"
